@@ -927,4 +927,4 @@ SPEC_BUILTINS = {"implies", "iff", "old", "forall", "exists", "isinst", "cls_is"
                  "field", "len", "str", "all", "any", "range", "int", "bool", "isinstance", "type", "zip", "enumerate",
                  "list", "tuple", "concat", "prefix_of", "seq_eq", "allocated", "unchanged", "strlen", "substr",
                  "startswith", "endswith", "contains", "old_field", "replace", "min", "max", "abs", "index_of", "in_re_ws",
-                 "set_subset", "lemma", "dict_keys", "store", "const_map", "any_value", "is_space", "str_repeat", "pigeonhole", "card", "result_is_new", "str_from_int", "at"}
+                 "set_subset", "lemma", "dict_keys", "store", "const_map", "any_value", "frame", "same_class", "is_new", "is_space", "str_repeat", "pigeonhole", "card", "result_is_new", "str_from_int", "at"}
